@@ -3540,8 +3540,7 @@ template< size_t L, size_t S>
    bool operator !=( const FixedString< L>& lhs, const FixedString< S>& rhs)
       noexcept
 {
-   return (lhs.length() != rhs.length())
-          && (::memcmp( lhs.c_str(), rhs.c_str(), lhs.length()) != 0);
+   return !(lhs == rhs);
 } // operator !=
 
 
